@@ -145,12 +145,12 @@ def tee_scenario(seed):
     async def main():
         lock = (QLock() if seed % 2 else asyncio.Lock()) if uselock else None
         tee = L.tee(Source(), n=n, lock=lock) if uselock else L.tee(Source(), n=n)
-        children = list(tee)
-        del tee
+        # every consumer looks its child up when it starts (odd seeds: by index, even seeds: unpacked at once)
+        children = [None] * n if seed % 2 else list(tee)
         plans = {c: (rnd.randint(1, srclen + 2), rnd.randint(0, 2)) for c in range(1, n + 1)}
 
         async def consumer(c):
-            child = children[c - 1]
+            child = children[c - 1] if children[c - 1] is not None else tee[c - 1]
             children[c - 1] = None
             take, gap = plans[c]
             inside = False
